@@ -83,7 +83,9 @@ int main(int argc, char** argv)
     pika::init_params ip;
     ip.cfg = {"pika.os_threads=7"};
     ip.rp_callback = [&](auto& rp, pika::program_options::variables_map const&) {
-        rp.create_thread_pool("s", pika::resource::scheduling_policy::static_);
+        // both non-stealing policies take turns
+        rp.create_thread_pool("s",
+            seed % 2 ? pika::resource::scheduling_policy::static_priority : pika::resource::scheduling_policy::static_);
         rp.create_thread_pool("t", pika::resource::scheduling_policy::abp_priority_fifo);
         int k = 0;
         for (auto const& d : rp.sockets())
@@ -192,10 +194,33 @@ int main(int argc, char** argv)
             std::vector<std::unique_ptr<std::atomic<int>>> about;
             for (int i = 0; i < nt; ++i) about.push_back(std::make_unique<std::atomic<int>>(0));
             for (int i = 0; i < nt; ++i) sems.push_back(std::make_unique<pika::counting_semaphore<>>(0));
-            for (int i = 0; i < nt; ++i)
+            // sometimes all hinted tasks of the static pool go to ONE worker that is kept busy by a
+            // non-yielding task while its neighbours are idle (nobody may take them over)
+            int busy_hint = R.chance(1, 3) ? (int) R.below(NW[1]) : -1;
+            if (busy_hint >= 0)
+            {
+                ++nt;
+                sems.push_back(std::make_unique<pika::counting_semaphore<>>(0));
+                about.push_back(std::make_unique<std::atomic<int>>(0));
+                nblocks.push_back(0);
+                auto sb = ex::with_hint(sch[1],
+                    pika::execution::thread_schedule_hint(
+                        pika::execution::thread_schedule_hint_mode::thread, (std::int16_t) busy_hint));
+                expected_runs += 1;
+                who sub = me();
+                int spin_us = 200 + (int) R.below(400);
+                ex::execute(sb, [&, busy_hint, sub, spin_us] {
+                    log_run(1, busy_hint, 0, &sub);
+                    auto t = clk::now() + std::chrono::microseconds(spin_us);
+                    while (clk::now() < t) {}
+                    ++fin;
+                });
+            }
+            for (int i = 0; i < nt - (busy_hint >= 0 ? 1 : 0); ++i)
             {
                 int p = R.chance(2, 3) ? 1 : (int) R.below(3);
                 int hint = (int) R.below(NW[p]);
+                if (busy_hint >= 0 && p == 1) hint = busy_hint;
                 int prio = R.chance(1, 5) ? 1 : 0;
                 int phases = 1 + (int) R.below(4);
                 bool blocking = R.chance(1, 2);
